@@ -3,7 +3,20 @@
 // the same oracle failure (same signature) persists.
 package main
 
-import "encoding/json"
+import (
+	"encoding/json"
+	"time"
+)
+
+// Minimisation is a convenience, never part of the verdict: it stops after shrinkPerCase on one case and after
+// shrinkBudget in the whole process (a change that makes hundreds of cases fail, long chunk lists among them, must
+// not turn a one-minute check into a ten-minute one); what has been reached by then is what is reported.
+const (
+	shrinkPerCase = 3 * time.Second
+	shrinkBudget  = 20 * time.Second
+)
+
+var shrinkSpent time.Duration
 
 func cloneCase(c *Case) *Case {
 	b, _ := json.Marshal(c)
@@ -16,8 +29,17 @@ func (engine) Shrink(ci any, stillFails func(any) bool) any {
 	if _, conc := concFailed[concKey(ci.(*Case))]; conc {
 		return ci // seen by the concurrent oracle: depends on the interleaving, not minimised (conc.go)
 	}
+	if _, cold := coldFailed[concKey(ci.(*Case))]; cold {
+		return ci // seen by the cold-start oracle: likewise (cold.go)
+	}
+	start := time.Now()
+	defer func() { shrinkSpent += time.Since(start) }()
+	over := func() bool { return time.Since(start) > shrinkPerCase || shrinkSpent+time.Since(start) > shrinkBudget }
 	cur := cloneCase(ci.(*Case))
 	try := func(mut func(c *Case) bool) bool {
+		if over() {
+			return false
+		}
 		cand := cloneCase(cur)
 		if !mut(cand) {
 			return false
@@ -61,7 +83,23 @@ func (engine) Shrink(ci any, stillFails func(any) bool) any {
 			return true
 		}
 	}
-	for progress, rounds := true, 0; progress && rounds < 50; rounds++ {
+	// 0. long lists: whole blocks of chunks first (halves, quarters, ...), then single chunks
+	for size := nChunks(cur) / 2; size >= 2; size /= 2 {
+		for i := 0; i+size <= nChunks(cur) && !over(); {
+			i0, sz := i, size
+			if !try(func(c *Case) bool {
+				for k := 0; k < sz; k++ {
+					if !dropChunk(i0)(c) {
+						return false
+					}
+				}
+				return true
+			}) {
+				i += size
+			}
+		}
+	}
+	for progress, rounds := true, 0; progress && rounds < 50 && !over(); rounds++ {
 		progress = false
 		// 1. whole chunks
 		for i := nChunks(cur) - 1; i >= 0; i-- {
